@@ -45,6 +45,7 @@ type Ctx struct {
 	axioms  []*decl         // global axioms (always included if their deps are in cone)
 	strLits map[string]string
 	strTheory bool
+	inQuant int
 }
 
 func newCtx() *Ctx {
@@ -147,9 +148,15 @@ func (c *Ctx) fun(name string, args []Sort, res Sort) string {
 
 // define introduces a named definition for body (sharing); returns the name.
 func (c *Ctx) define(hint string, s Sort, body string) string {
+	if c.inQuant > 0 {
+		return body // bound variables may occur: no top-level naming
+	}
 	// small bodies are not worth naming
 	if len(body) < 40 && !strings.Contains(body, "\n") {
 		return body
+	}
+	if strings.HasPrefix(s, "(Array") {
+		return c.defineEq(hint, s, body)
 	}
 	c.nfresh++
 	n := fmt.Sprintf("%s!%d", smtName(hint), c.nfresh)
@@ -157,8 +164,21 @@ func (c *Ctx) define(hint string, s Sort, body string) string {
 	return n
 }
 
+// defineEq introduces a constant constrained by an equation (instead of a macro), so that the
+// name can occur inside quantifier patterns even when the body has boolean structure.
+func (c *Ctx) defineEq(hint string, s Sort, body string) string {
+	c.nfresh++
+	n := fmt.Sprintf("%s!%d", smtName(hint), c.nfresh)
+	c.add(&decl{name: n, sort: s, deps: c.sortDeps(s)})
+	c.axiom("def:"+n, "(= "+n+" "+body+")", n)
+	return n
+}
+
 // defineAlways names even small bodies (for pcs).
 func (c *Ctx) defineAlways(hint string, s Sort, body string) string {
+	if strings.HasPrefix(s, "(Array") {
+		return c.defineEq(hint, s, body)
+	}
 	c.nfresh++
 	n := fmt.Sprintf("%s!%d", smtName(hint), c.nfresh)
 	c.add(&decl{name: n, sort: s, body: body, deps: append(c.depsOf(body), c.sortDeps(s)...)})
@@ -506,7 +526,10 @@ func solve(file string, tmo int, mode string) SolveResult {
 	var res SolveResult
 	res.Status = "unknown"
 	decided := ""
-	for _, sc := range solverCmds {
+	for i, sc := range solverCmds {
+		if mode == "reach" && i > 0 {
+			break // reachability guard: one solver, short timeout; only `unsat` matters
+		}
 		st, out, el := runOne(sc.name, sc.argv(file, tmo), tmo)
 		res.Tried = append(res.Tried, fmt.Sprintf("%s:%s:%.2fs", sc.name, st, el))
 		res.TimeS += el
